@@ -147,7 +147,7 @@ theorem EntryStartOK.lineEnd {s : Src} {q : Nat} (h : EntryStartOK s q) : LineEn
   rcases h with h | ⟨b, hb, hab⟩
   · exact Or.inl h
   · obtain ⟨h1, h2, h3, h4, _⟩ := entryStart_facts b hab
-    exact Or.inr ⟨b, hb, h1, h2, h3, h4⟩
+    exact Or.inr ⟨b, hb, h1, h2, h3, fun h => absurd h h4⟩
 
 theorem EntryStartOK.facts {s : Src} {q : Nat} (h : EntryStartOK s q) :
     s[q]? ≠ some 32 ∧ s[q]? ≠ some 10 ∧ s[q]? ≠ some 13 ∧ s[q]? ≠ some 46 := by
